@@ -10,6 +10,7 @@ package shared
 //@ ghost field tester/shared.Counter.g_failed bool
 
 //@ func (*Counter).Pass [C10]
+//@   only-writers [counters-written-only-by-their-methods C10] F:tester/shared.Counter. : Pass Fail Skip
 //@   requires c != nil
 //@   ensures [pass-counts] c.Passes == old(c.Passes) + 1 && c.Asserts == old(c.Asserts) + 1 && c.Fails == old(c.Fails) && c.Skips == old(c.Skips)
 //@   assigns c.Asserts, c.Passes
